@@ -8,6 +8,8 @@ package resolver
 
 import (
 	"fmt"
+	"maps"
+	"slices"
 
 	"github.com/DDP-Projekt/Kompilierer/src/ast"
 	"github.com/DDP-Projekt/Kompilierer/src/ddperror"
@@ -306,15 +308,16 @@ func (r *Resolver) VisitGrouping(expr *ast.Grouping) ast.VisitResult {
 
 func (r *Resolver) VisitFuncCall(expr *ast.FuncCall) ast.VisitResult {
 	// visit the passed arguments
-	for _, v := range expr.Args {
-		r.visit(v)
+	// iterate in a fixed order, so that the reported errors do not depend on the map order
+	for _, name := range slices.Sorted(maps.Keys(expr.Args)) {
+		r.visit(expr.Args[name])
 	}
 	return ast.VisitRecurse
 }
 
 func (r *Resolver) VisitStructLiteral(expr *ast.StructLiteral) ast.VisitResult {
-	for _, arg := range expr.Args {
-		r.visit(arg)
+	for _, name := range slices.Sorted(maps.Keys(expr.Args)) {
+		r.visit(expr.Args[name])
 	}
 	return ast.VisitRecurse
 }
